@@ -429,6 +429,10 @@ def judge(sp, cfg, res, want=None):
         mods = [k[0].model for k in kids]
         for (ma, pa), (mb, pb) in zip(zip(mods, p.children), zip(mods[1:], p.children[1:])):
             obs["sibling_pairs"] += 1
+            if pa.name == pb.name and pa.is_leaf() and pb.is_leaf():
+                # two rows that print identically (benchmarks of one name nested in different function bodies of one module): which
+                # of them stands first cannot be read off the output
+                continue
             c = TG.cmp_nodes(it.sort_attr, ma, mb) * sign
             if c > 0:
                 add("C16", "siblings_out_of_order" + same_position_suffix(ma, mb), "under '%s': '%s' is shown before '%s' under sort=%s%s" % (
@@ -491,7 +495,12 @@ def judge(sp, cfg, res, want=None):
                 elif r["ty"] is not None:
                     if label != TG.type_display(r["ty"]):
                         add("C17", "type_label_mismatch", "row labelled '%s' ran with type '%s'" % (label, r["ty"]))
-                if e is not None and e.case is not None and e.case.leaf.bench.bid != r["bid"]:
+                twin = False
+                if e is not None and e.case is not None and r["bid"] in bench_of:
+                    b1, b2 = e.case.leaf.bench, bench_of[r["bid"]]
+                    # two benchmarks whose rows print identically (same module path, same name, plain): which row is whose cannot be told
+                    twin = b1.bid != b2.bid and (b1.modpath, b1.display, b1.kind) == (b2.modpath, b2.display, b2.kind) and b1.kind == "plain"
+                if e is not None and e.case is not None and e.case.leaf.bench.bid != r["bid"] and not twin:
                     add("C17", "row_runs_other_bench", "row '%s' belongs to bench %d but bench %d ran" % ("::".join(path), e.case.leaf.bench.bid, r["bid"]))
     return V, obs, None
 
